@@ -61,3 +61,48 @@ pub proof fn cbc_p_is_run(d: spec_fn(Blk) -> Blk, iv: Blk, cs: Seq<Blk>)
     }
     run_by_states(st, seq![iv], cs, states, outs);
 }
+
+// a message cut into full blocks and a shorter tail (the cut is unique: chunking_unique)
+pub open spec fn is_chunking(m: Seq<u8>, b: nat, ps: Seq<Blk>, t: Seq<u8>) -> bool {
+    &&& flatg(ps) + t == m
+    &&& t.len() < b
+    &&& forall |i: int| 0 <= i < ps.len() ==> (#[trigger] ps[i]).len() == b
+}
+pub proof fn chunking_unique(m: Seq<u8>, b: nat, ps1: Seq<Blk>, t1: Seq<u8>, ps2: Seq<Blk>, t2: Seq<u8>)
+    requires b > 0, is_chunking(m, b, ps1, t1), is_chunking(m, b, ps2, t2)
+    ensures ps1 == ps2, t1 == t2
+{
+    flatg_len(ps1, b); flatg_len(ps2, b);
+    let n1 = ps1.len() as int; let n2 = ps2.len() as int; let bb = b as int;
+    assert(m.len() == flatg(ps1).len() + t1.len());
+    assert(m.len() == flatg(ps2).len() + t2.len());
+    assert(flatg(ps1).len() == n1 * bb && flatg(ps2).len() == n2 * bb);
+    assert(n1 * bb + t1.len() == n2 * bb + t2.len());
+    if n1 > n2 { assert(n1 * bb >= n2 * bb + bb) by (nonlinear_arith) requires n1 >= n2 + 1, bb > 0; }
+    if n2 > n1 { assert(n2 * bb >= n1 * bb + bb) by (nonlinear_arith) requires n2 >= n1 + 1, bb > 0; }
+    assert(n1 == n2);
+    flatg_unique(ps1, t1, ps2, t2, b);
+}
+pub proof fn chunking_len(m: Seq<u8>, b: nat, ps: Seq<Blk>, t: Seq<u8>)
+    requires b > 0, is_chunking(m, b, ps, t)
+    ensures ps.len() == m.len() / b, t.len() == m.len() % b, m.len() == ps.len() * b + t.len()
+{
+    flatg_len(ps, b);
+    vstd::arithmetic::div_mod::lemma_fundamental_div_mod_converse(m.len() as int, b as int, ps.len() as int, t.len() as int);
+}
+
+// decryption counterparts (NIST): un-arrange the last two pieces, undo the stealing
+// CBC: Z = D(C_n); C_{n-1} = C* || Z[d..]; P_n* = (Z ^ C_{n-1})[..d]; P_{n-1} = D(C_{n-1}) ^ C_{n-2}
+pub open spec fn cbc_cs_dec_tail(d: spec_fn(Blk) -> Blk, prev: Blk, c_star: Seq<u8>, c_n: Blk) -> Seq<u8> {
+    let z = d(c_n);
+    let c_pen = c_star + z.skip(c_star.len() as int);
+    xor_seq(d(c_pen), prev) + xor_seq(z, c_pen).take(c_star.len() as int)
+}
+pub open spec fn ecb_cs_dec_tail(d: spec_fn(Blk) -> Blk, c_star: Seq<u8>, c_n: Blk) -> Seq<u8> {
+    let z = d(c_n);
+    let c_pen = c_star + z.skip(c_star.len() as int);
+    d(c_pen) + z.take(c_star.len() as int)
+}
+// ciphertext pieces of a stolen message, by variant: (head blocks, C*, C_n) from full blocks cs and tail t
+// CS1: [.. , C*(d) , C_n]  i.e. the last full block of the buffer is split across a block boundary
+pub open spec fn cbc_dec_chain(d: spec_fn(Blk) -> Blk, iv: Blk, cs: Seq<Blk>) -> Seq<Blk> { run(cbc_dec_step(d), seq![iv], cs).1 }
